@@ -893,6 +893,9 @@ class Interp:
                 return tuple(obj.payload or ())
             if attr == "__class__":
                 return type(obj.exc, (), {})  # only its __name__ is observable
+            if attr == "chain" and obj.exc == "CyclicAliasError":
+                pl = obj.payload or ()
+                return list(pl[0]) if pl and isinstance(pl[0], (list, tuple)) else []
             raise AnalysisError(f"attribute {attr} of exception value")
         if obj is None:
             raise Raised("AttributeError")
